@@ -111,6 +111,24 @@ def build(targets):
     return rc == 0, out
 
 
+def import_closure(modules):
+    """the project modules (Anytree.*) a list of modules imports, transitively, themselves included"""
+    seen, todo = [], list(modules)
+    while todo:
+        m = todo.pop()
+        if m in seen or not m.startswith("Anytree"):
+            continue
+        path = os.path.join(LEAN, *m.split(".")) + ".lean"
+        if not os.path.exists(path):
+            continue
+        seen.append(m)
+        for line in open(path, encoding="utf-8"):
+            mm = re.match(r"\s*import\s+(Anytree[\w.]*)", line)
+            if mm:
+                todo.append(mm.group(1))
+    return sorted(seen)
+
+
 def driver_path():
     return os.path.join(LEAN, ".lake", "build", "bin", "driver")
 
